@@ -184,6 +184,13 @@ class SymSession(_PatchMixin):
             if core._is_inf(x) or core._is_inf(y):
                 self.claims.append((name, z3.BoolVal(core._is_inf(x) and core._is_inf(y) and float(x) == float(y))))
                 return
+            if isinstance(x, (float, np.floating)) and isinstance(y, (float, np.floating)):
+                # two machine floats computed by different operation orders: equal up to rounding (floats are
+                # modelled as reals; bit-equality of concrete float arithmetic is not part of any property)
+                fx, fy = float(x), float(y)
+                ok = (fx == fy) or abs(fx - fy) <= 1e-9 * max(1.0, abs(fx), abs(fy))
+                self.claims.append((name, z3.BoolVal(bool(ok))))
+                return
             self.claims.append((name, core.as_term(x) == core.as_term(y)))
 
     def claim_is(self, name, a, b):
